@@ -438,6 +438,12 @@ def run(ctx):
                            "variant": VARIANTS.get(c["cfg"][3]), "first_divergence": d, "search": "monitors over %d further cases found nothing" % len(more)}, no_input=True)
     if not res.ok:
         ctx.violation("Coq obligations of C11 do not check: %s" % (res.failed[:2],), {"theorem": [f[2] for f in res.failed], "errors": res.failed[:3]}, no_input=True)
+    coqchk = None
+    if ctx.thorough() and res.ok:
+        rc_c, out_c = vcheck.coqchk("LV.Properties.Properties_C11")
+        coqchk = {"cmd": "coqchk -o -silent -Q . LV LV.Properties.Properties_C11", "rc": rc_c, "axioms_none": "* Axioms: <none>" in out_c}
+        if rc_c != 0 or not coqchk["axioms_none"]:
+            ctx.violation("coqchk rejects Properties_C11 or reports axioms", {"output": out_c[-1500:]}, no_input=True)
 
     if os.environ.get("VERIF_VERBOSE"): ctx.log("violations reported; writing evidence")
     fc_ran = False; fc_stats = None
@@ -473,7 +479,7 @@ def run(ctx):
         "modelled": "cds::intrusive::MSPriorityQueue push/pop/heapify_after_push/heapify_after_pop + bit_reverse_counter inc/dec; "
                     "cds::container::MSPriorityQueue runs the same atomic accesses (checked by the same correspondence)",
         "fc_part_ran": fc_ran, "fc": fc_stats,
-        "counter_tied_to_generated_code(non-gating)": tie,
+        "counter_tied_to_generated_code(non-gating)": tie, "coqchk(thorough tier)": coqchk,
         "fc_part": "checks/C11fc.py run_fc(ctx)" if fc_ran else "checks/C11fc.py not present: the FCPriorityQueue half of C11 was NOT checked in this run",
     })
     return ctx.finish(vcheck.STD_TRUSTED + ["hook layer: khizmax_libcds_verif::atomic<T>, baton scheduler, event log (hooks/include)",
